@@ -19,7 +19,7 @@
      fast_equal_eq_reflect_equal                           the two algorithms agree
      equal_unknown_interleaving                            + a witness that order within one number matters
      equal_clone                                           the order of bindings is irrelevant
-     equal_decode_encode                                   corollary of C03 (same restrictions: _partial)
+     equal_decode_encode                                   corollary of C03_roundtrip (hypothesis msg_valid, incl. msg_group_scans on the reflection path)
      valid_wf                                              C03's canonical values are well-formed here
    Not modelled: cmp.Equal with protocmp.Transform (the harness compares it with proto.Equal on
    every eligible pair); invalid (nil) messages (C31); lazily stored extension values (the
